@@ -1,6 +1,6 @@
 """C06 -- stream join/free and finalize wait for all work; the blocked-unit
 counter that drives the decision is balanced (structural part)."""
-from abtverif import cfg, seq
+from abtverif import canon, cfg, seq
 from abtverif.seq import idx, is_call, show, has_if, atomic_cmp
 from . import common
 
@@ -132,10 +132,13 @@ def rule_R1_R3_R4(P, rep):
             incs = [toks[i] for i in idx(toks, is_call(INC))]
             decs = [toks[i] for i in idx(toks, is_call(DEC))]
             def who(t):
-                a = F.render(F.nodes[t[-1]]["a"][0])
-                if "p_prev" in a:
+                # identity of the unit whose pool is counted: the callback's own argument (or the p_prev
+                # member of its argument struct) is the outgoing unit, the p_next member the resumed one
+                a = canon.rooted(F, F.nodes[t[-1]]["a"][0])
+                p0 = F.params[0]["n"]
+                if a.startswith(p0 + "->p_prev->") or a.startswith(p0 + "->thread."):
                     return "prev"
-                if "p_next" in a:
+                if a.startswith(p0 + "->p_next->"):
                     return "next"
                 return a
             got = sorted(["+1 " + who(t) for t in incs] + ["-1 " + who(t) for t in decs])
@@ -150,7 +153,7 @@ def rule_R1_R3_R4(P, rep):
                 if has_if(toks, "p_prev_pool != p_next_pool", False):
                     want = [[]]
             else:
-                want = [["-1 p_pool"]]
+                want = [["-1 prev"]]
             rep.ob("R4", "%s path: counter effects %s (class: %s)" % (cb, got, cls), got in want,
                    "expected %s on every path" % want, loc="%s:%d" % (F.file, F.line), site="%s/net/%s" % (cb, len(toks)))
     rep.min_instances("R1", 5)
